@@ -72,7 +72,7 @@ def specs_for(rng, total: int, lead_len: int, L: int | None):
     return specs
 
 
-def twin(rng, ctx) -> None:
+def twin(rng, ctx, prop: str = "C05") -> None:
     """Two ModeDReader objects fed alternately must each deliver exactly their own stream (no state shared between instances)."""
     ids = p1_gen.IdSource(rng)
     sents = [[p1_gen.strict_readout(rng, ids, rng.choice((0, 2, 6))) for _ in range(rng.randint(2, 6))] for _ in range(2)]
@@ -98,10 +98,10 @@ def twin(rng, ctx) -> None:
     ctx.count("twin_executions")
     case = {"twin": True, "chunks": [list(c) for c in chunk_lists], "order": order, "sent": sents}
     if raised is not None:
-        ctx.violation(f"C05:read-raised:{p1_mon.where(raised)}", f"read() raised {raised!r} on clean streams fed to two reader objects alternately", case)
+        ctx.violation(f"{prop}:read-raised:{p1_mon.where(raised)}", f"read() raised {raised!r} on clean streams fed to two reader objects alternately", case)
     for k in range(2):
         if got[k] != [(r, True) for r in sents[k]]:
-            ctx.violation("C05:instances-share-state", f"reader {k}: {len(sents[k])} clean readouts sent, {sum(1 for g in got[k] if g[1])} delivered valid and byte-identical when another reader object is used in between", case)
+            ctx.violation(f"{prop}:instances-share-state", f"reader {k}: {len(sents[k])} clean readouts sent, {sum(1 for g in got[k] if g[1])} delivered valid and byte-identical when another reader object is used in between", case)
 
 
 def compare(lead: bytes, sent: list[bytes], spec, ctx) -> None:
